@@ -78,6 +78,22 @@ def suite_eval(ctx, case):
         if k == 'wca' and p['eps'] >= 0:
             ctx.pred('eval', case, bool(np.all(out >= -1e-12 * abs(p['eps']))), 'WCA negative: min %r' % float(np.min(out)), key='C10:wca-nonneg')
     ctx.pred('eval', case, np.array_equal(r, r0) and np.array_equal(out, out2, equal_nan=True), '%s modifies r or is not repeatable' % k, key='C10:purity')
+    # element-wise: the same distances handed over in other legal layouts (reversed / strided views; 2-D tables in C and Fortran order, a transpose)
+    # give the same value at the same element
+    if len(r) >= 4 and case.get('layouts', True):
+        n2 = (len(r) // 2) * 2; W = U if k != 'wca' else make(case)
+        tab = r[:n2].reshape(2, -1); ref2 = out[:n2].reshape(2, -1)
+        lay = [('reversed view', r[::-1], out[::-1]), ('strided view', np.repeat(r, 2)[::2], out), ('2-D C order', tab.copy(), ref2),
+               ('2-D Fortran order', np.asfortranarray(tab), ref2), ('transposed 2-D view', tab.T, ref2.T)]
+        for nm_, arr_, want_ in lay:
+            try:
+                with np.errstate(all='ignore'):
+                    got_ = np.asarray(W.calculate(arr_), dtype=float)
+                okl = got_.shape == want_.shape and bool(np.array_equal(got_, want_, equal_nan=True))
+            except Exception as e:
+                okl = False; got_ = repr(e)
+            ctx.pred('eval', case, okl, '%s: evaluated on a %s the value at an element differs from the value of that distance in the 1-D grid' % (k, nm_), key='C10:elementwise')
+            if not okl: break
     # a deep copy (what a PairTable stores, what a PRISM object holds) is an object of its own: re-using the ORIGINAL for the next pair
     # with other parameters must not change what the copy returns
     import copy
